@@ -142,6 +142,10 @@ let respond (line : String.t) : String.t =
     (match subs_of_term (parse_term s) with
      | None -> "nosubs"
      | Some s -> show_keys (subst_key s (parse_term bounded) (parse_term trait_)))
+  | [ "stable"; s; bounded; trait_ ] ->
+    (match subs_of_term (parse_term s) with
+     | None -> "nosubs"
+     | Some s -> bool_s (stable_key s (parse_term bounded) (parse_term trait_)))
   | [ "roundtrip"; s; bounded; trait_; rb; rt ] ->
     (match subs_of_term (parse_term s) with
      | None -> "nosubs"
